@@ -106,6 +106,105 @@ Proof. intros xs m ch. unfold chunk_tasks. apply chunk_loop_nonempty. Qed.
 
 End ChunkFacts.
 
+(* ------------------------------------------------------------------ exact carry: number of chunks *)
+(* with the carry computed exactly, mpire's default chunking produces min(n, n_splits) chunks — the number
+   get_n_chunks announces when computed exactly; the ValueError fixed by 14cf9ed is a pure float-rounding effect *)
+Open Scope Z_scope.
+Definition ceilZ (c m : Z) : Z := - ((- c) / m).
+
+Lemma Qceiling_frac : forall c (m : positive), Qceiling (c # m) = ceilZ c (Zpos m).
+Proof. intros. unfold Qceiling, Qfloor, ceilZ. simpl. reflexivity. Qed.
+
+Lemma ceilZ_spec : forall c m, 0 < m -> m * (ceilZ c m - 1) < c <= m * ceilZ c m.
+Proof. intros c m Hm. unfold ceilZ. pose proof (Z.div_mod (-c) m ltac:(lia)). pose proof (Z.mod_pos_bound (-c) m Hm). nia. Qed.
+
+Lemma ceilZ_unique : forall c m k, 0 < m -> m * (k - 1) < c <= m * k -> ceilZ c m = k.
+Proof. intros c m k Hm H. pose proof (ceilZ_spec c m Hm). nia. Qed.
+
+Section ExactCount.
+Context {A : Type}.
+
+Fixpoint chunk_loopZ (fuel : nat) (n m c : Z) (xs : list A) : list (list A) :=
+  match fuel with
+  | O => []
+  | S f =>
+    let k := ceilZ c m in
+    let t := Z.to_nat (Z.max 1 k) in
+    match firstn t xs with
+    | [] => []
+    | ch => ch :: chunk_loopZ f n m (c + n - m * k) (skipn t xs)
+    end
+  end.
+
+Lemma chunk_loop_Z : forall fuel n (m : positive) c cur (xs : list A),
+  (cur == c # m)%Q -> chunk_loop fuel (n # m) cur xs = chunk_loopZ fuel n (Zpos m) c xs.
+Proof.
+  induction fuel as [|fuel IH]; intros n m c cur xs Hc; [reflexivity|].
+  cbn [chunk_loop chunk_loopZ].
+  rewrite (Qceiling_comp _ _ Hc), Qceiling_frac.
+  destruct (firstn (Z.to_nat (Z.max 1 (ceilZ c (Z.pos m)))) xs) as [|a l]; [reflexivity|].
+  f_equal. apply IH. rewrite Hc.
+  unfold Qeq, Qminus, Qplus, Qopp, inject_Z. cbn [Qnum Qden]. rewrite ?Pos2Z.inj_mul. ring.
+Qed.
+
+(* n <= m: every chunk has one element *)
+Lemma countA : forall fuel n m c (xs : list A),
+  0 < m -> n <= m -> c <= m -> (length xs < fuel)%nat ->
+  length (chunk_loopZ fuel n m c xs) = length xs.
+Proof.
+  induction fuel as [|fuel IH]; intros n m c xs Hm Hnm Hc Hlen; [lia|].
+  simpl. pose proof (ceilZ_spec c m Hm) as Hk.
+  assert (Hk1 : ceilZ c m <= 1) by nia.
+  replace (Z.to_nat (Z.max 1 (ceilZ c m))) with 1%nat by lia.
+  destruct xs as [|x xs']; [reflexivity|]. simpl. f_equal.
+  apply IH; auto; [nia|simpl in Hlen; lia].
+Qed.
+
+(* n > m: after i chunks s = ceil(i n / m) elements are gone and the carry is ((i+1) n - s m) / m *)
+Lemma countB : forall fuel n m (i s c : Z) (xs : list A),
+  0 < m -> m < n -> 0 <= i <= m -> s = ceilZ (i * n) m -> c = (i + 1) * n - s * m ->
+  Z.of_nat (length xs) = n - s -> (length xs < fuel)%nat ->
+  Z.of_nat (length (chunk_loopZ fuel n m c xs)) = m - i.
+Proof.
+  induction fuel as [|fuel IH]; intros n m i s c xs Hm Hmn Hi Hs Hc Hlen Hfuel; [lia|].
+  pose proof (ceilZ_spec (i * n) m Hm) as Hss. rewrite <- Hs in Hss.
+  simpl.
+  destruct (Z.eq_dec i m) as [Him|Him].
+  - assert (s = n) by nia. assert (length xs = 0%nat) by lia.
+    destruct xs; [|simpl in *; lia]. rewrite firstn_nil. simpl. lia.
+  - set (s' := ceilZ ((i + 1) * n) m).
+    pose proof (ceilZ_spec ((i + 1) * n) m Hm) as Hs'. fold s' in Hs'.
+    assert (Hk : ceilZ c m = s' - s) by (apply ceilZ_unique; [lia|nia]).
+    rewrite Hk.
+    assert (Hge : 1 <= s' - s) by nia.
+    assert (Hle : s' <= n) by nia.
+    replace (Z.max 1 (s' - s)) with (s' - s) by lia.
+    set (t := Z.to_nat (s' - s)).
+    assert (Ht : (1 <= t <= length xs)%nat) by (unfold t; lia).
+    destruct (firstn t xs) as [|a l] eqn:Ef.
+    + exfalso. assert (length (firstn t xs) = t) by (apply firstn_length_le; lia).
+      rewrite Ef in H. simpl in H. lia.
+    + simpl length. rewrite Nat2Z.inj_succ.
+      assert (Hsk : Z.of_nat (length (skipn t xs)) = n - s') by (rewrite skipn_length; unfold t; lia).
+      assert (Hfu : (length (skipn t xs) < fuel)%nat) by (rewrite skipn_length; lia).
+      rewrite (IH n m (i + 1) s' (c + n - m * (s' - s)) (skipn t xs) Hm Hmn ltac:(lia) eq_refl ltac:(nia) Hsk Hfu).
+      lia.
+Qed.
+
+Theorem chunk_tasks_count : forall (xs : list A) (m : positive),
+  length (chunk_tasks xs m) = Nat.min (length xs) (Pos.to_nat m).
+Proof.
+  intros xs m. unfold chunk_tasks.
+  rewrite (chunk_loop_Z _ _ _ (Z.of_nat (length xs))) by reflexivity.
+  destruct (Z_le_gt_dec (Z.of_nat (length xs)) (Zpos m)) as [Hle|Hgt].
+  - rewrite countA; lia.
+  - apply Nat2Z.inj.
+    rewrite (countB _ _ _ 0 0); try lia.
+    unfold ceilZ. simpl. reflexivity.
+Qed.
+End ExactCount.
+Close Scope Z_scope.
+
 (* ------------------------------------------------------------------ sorting by index *)
 Section SortFacts.
 Context {X : Type}.
